@@ -24,6 +24,9 @@ Correspondence (model executed by the Lean driver, `C18 <op>`):
                         explicit (`fitQuantileW` on `interceptModelFit w`, exact rationals, ridge 2^-26): expectile and
                         coefficient of every re-fit, number of re-fits, returned coefficient; oracle: weighted balance of
                         the returned coefficient
+  fit_quantile.containers  the same values handed over in other containers / shapes / dtypes (y as column, row, list, list of lists,
+                        tuple, int; X as list of lists, 1-D, int, Fortran; weights likewise) vs canonical float64 arrays: identical
+                        search trace and returned model; the trace vs the model bisection driven by the per-sample ratios
   malformed             argument rejection of fit_quantile and the expectile range check vs the model (exception class)
 
 Everything goes through pyGAM's public API (ExpectileGAM / LinearGAM methods and attributes; the trace is taken by a
@@ -485,10 +488,17 @@ def make_traced(pygam):
         """records (expectile, ratio on the data of the call, the `weights` keyword the call received, coefficients) after
         every public fit"""
         _trace = None
+        _ref = None      # (X, y) as canonical float64 2-D / 1-D arrays: when set, the recorded ratio is the per-sample fraction on them
 
         def fit(self, X, y, weights=None):
             r = super(Traced, self).fit(X, y, weights=weights)
-            if Traced._trace is not None:
+            if Traced._trace is not None and Traced._ref is not None:
+                try:
+                    seen = None if weights is None else np.array(weights, dtype=float).ravel().copy()
+                except Exception:  # noqa
+                    seen = 'unreadable'
+                Traced._trace.append((float(self.expectile), below_fraction(self, *Traced._ref), seen, None))
+            elif Traced._trace is not None:
                 try:
                     seen = None if weights is None else np.array(weights, dtype=float).ravel().copy()
                 except Exception:  # noqa
@@ -501,6 +511,18 @@ def make_traced(pygam):
                                       seen, coef))
             return r
     return Traced
+
+
+def below_fraction(g, Xc, yc):
+    """the fraction of training targets below the prediction: one comparison per sample, on canonical arrays (NaN if the model
+    does not give one finite prediction per row)"""
+    try:
+        mu = np.asarray(g.predict(Xc), dtype=float)
+    except Exception:  # noqa
+        return float('nan')
+    if mu.shape != yc.shape or not np.all(np.isfinite(mu)):
+        return float('nan')
+    return float((mu > yc).mean())
 
 
 def same_weights(seen, w, n):
@@ -632,7 +654,7 @@ def final_model(pygam, g, c):
     except Exception as ex:  # noqa
         out['ref_err'] = type(ex).__name__
     k = replicable(X, w)
-    if k is not None and c['idx'] % 2 == 0:
+    if k is not None and c['idx'] % 3 == 0:
         try:
             h = fresh().fit(np.repeat(X, k, axis=0), np.repeat(y, k))
             if converged(h, 1e-8):
@@ -901,7 +923,7 @@ def run_fq_intercept(ctx, pygam, idxs=None):
                    'coefficient (1e-8) of every re-fit, number of re-fits, returned coefficient; oracle: weighted balance of the returned '
                    'coefficient at the returned expectile')
     Traced = make_traced(pygam)
-    ncase = 96 if ctx.tier == 'quick' else 640
+    ncase = 80 if ctx.tier == 'quick' else 640
     idxs = range(ncase) if idxs is None else idxs
     cases, ops = [], []
     for i in idxs:
@@ -1001,6 +1023,215 @@ def run_fq_intercept(ctx, pygam, idxs=None):
             ctx.count('intercept search agrees with the model', 'with re-fits' if refits else 'no re-fit')
 
 
+# --------------------------------------------------------------------------------------------
+# containers / shapes / dtypes in which X, y and weights are handed to fit_quantile
+# --------------------------------------------------------------------------------------------
+Y_FORMS = ['col', 'row', 'lol', 'list', 'int', 'col', 'tuple', 'lol']
+X_FORMS = ['lol', '1d', 'int', '1dlist', 'fortran', '1dint']
+W_FORMS = ['list', 'col', 'int', 'lol', 'tuple']
+FQC_MIXES = ['s0+l1', 'l0+l1', 's0+s1', 'te01']
+
+
+def as_form(v, form):
+    """the same values in another container / shape / dtype that `fit` accepts"""
+    if v is None:
+        return None
+    if form == 'canon':
+        return v
+    if form == 'col':
+        return v.reshape(-1, 1)
+    if form == 'row':
+        return v.reshape(1, -1)
+    if form == 'list':
+        return v.tolist()
+    if form == 'tuple':
+        return tuple(v.tolist())
+    if form == 'lol':
+        return [[x] for x in v.tolist()] if v.ndim == 1 else v.tolist()
+    if form == 'int':
+        return v.astype(np.int64)
+    if form == 'fortran':
+        return np.asfortranarray(v)
+    if form == '1d':
+        return v[:, 0].copy()
+    if form == '1dlist':
+        return v[:, 0].tolist()
+    if form == '1dint':
+        return v[:, 0].astype(np.int32)
+    raise KeyError(form)
+
+
+def fqc_case(ctx, i):
+    st = 'fit_quantile.containers'
+    r = ctx.subrng(st, i)
+    rs = np.random.RandomState(r.getrandbits(32))
+    yform, xform, wform = Y_FORMS[i % len(Y_FORMS)], X_FORMS[i % len(X_FORMS)], W_FORMS[i % len(W_FORMS)]
+    one = xform.startswith('1d')
+    n = [12, 20, 30, 30][r.randrange(4)]
+    # integer-valued data (exact in every integer / float dtype); the values, not the containers, define the problem
+    X = np.c_[rs.randint(0, 25, n), rs.randint(-8, 9, n)].astype(float)
+    X[:2, 0] = [0, 24]
+    f = 3 * np.sin(X[:, 0] / 4.0) + 0.3 * X[:, 1] * (not one)
+    y = np.round(4 * f + rs.randn(n) * [2, 5][r.randrange(2)])
+    if yform != 'int' and r.random() < 0.6:
+        y = y + np.round(rs.rand(n), 3)                    # not integer-valued unless the integer dtype is what is tested
+    if one:
+        X = X[:, :1].copy()
+    wk = ['skewint', 'int', 'zeros'][r.randrange(3)]
+    w = gen_weights(wk, n, rs, y)
+    mix = 's0' if one else FQC_MIXES[r.randrange(len(FQC_MIXES))]
+    q = [0.5, 0.75, 0.25, 0.9, 0.1, 0.8, 0.35][r.randrange(7)]
+    tol = [0.01, 0.03, 0.001][r.randrange(3)]
+    mi = [2, 3, 5, 5][r.randrange(4)]
+    e0 = [0.5, 0.25, 0.75, 0.3][r.randrange(4)]
+    prefit = ['no', 'no', 'same'][r.randrange(3)]
+    lam = [0.6, 5.0][r.randrange(2)]
+    return dict(i=i, n=n, X=X, y=y, w=w, wk=wk, mix=mix, q=q, tol=tol, mi=mi, e0=e0, prefit=prefit, lam=lam,
+                yform=yform, xform=xform, wform=wform)
+
+
+def eval_fqc(pygam, Traced, c, yform, xform, wform):
+    """fit_quantile with the arguments in the given forms, traced on the canonical arrays: the recorded ratios are the per-sample
+    below-fractions of the values, whatever shape the library compares internally"""
+    Xc, yc, wc = c['X'], c['y'], c['w']
+    Xv, yv, wv = as_form(Xc, xform), as_form(yc, yform), as_form(wc, wform)
+    g = Traced(build_terms(pygam, c['mix'], c['lam'], 6), expectile=c['e0'], tol=1e-8, max_iter=200)
+    Traced._trace, Traced._ref = None, (Xc, yc)
+    ratios, exc, ret, tr = [], None, None, []
+    try:
+        if c['prefit'] == 'same':
+            g.fit(Xc, yc, weights=wc)
+            ratios.append(below_fraction(g, Xc, yc))
+        Traced._trace = []
+        try:
+            ret = g.fit_quantile(Xv, yv, quantile=c['q'], max_iter=c['mi'], tol=c['tol'], weights=wv)
+        finally:
+            tr = list(Traced._trace or [])
+    except Exception as ex:  # noqa
+        exc = ex
+    finally:
+        Traced._trace, Traced._ref = None, None
+    first_ok = True
+    if c['prefit'] == 'no' and tr:
+        first_ok = (tr[0][0] == c['e0'])
+        ratios.append(tr[0][1])
+        refits = tr[1:]
+    else:
+        refits = tr
+    ratios += [t[1] for t in refits]
+    out = dict(exc=exc, ret_is_self=(ret is g), expectiles=[t[0] for t in refits], ratios=ratios, first_ok=first_ok, n_refits=len(refits),
+               final_e=None, final_ratio=None, mu=None, kw_ok=[same_weights(t[2], wc, c['n']) for t in tr])
+    if exc is None:
+        try:
+            out['final_e'] = float(g.expectile)
+            out['final_ratio'] = below_fraction(g, Xc, yc)
+            out['mu'] = np.asarray(g.predict(Xc), dtype=float)
+        except Exception as ex:  # noqa
+            out['exc'] = ex
+    return out
+
+
+def fit_accepts(pygam, c, yform, xform, wform):
+    try:
+        pygam.ExpectileGAM(build_terms(pygam, c['mix'], c['lam'], 6), expectile=c['e0'], tol=1e-8, max_iter=200).fit(
+            as_form(c['X'], xform), as_form(c['y'], yform), weights=as_form(c['w'], wform))
+        return True
+    except Exception:  # noqa
+        return False
+
+
+def same_search(a, b, scale):
+    if (a['exc'] is None) != (b['exc'] is None):
+        return False
+    if a['exc'] is not None:
+        return type(a['exc']) is type(b['exc'])
+    if a['expectiles'] != b['expectiles'] or a['final_e'] != b['final_e'] or a['n_refits'] != b['n_refits']:
+        return False
+    if len(a['ratios']) != len(b['ratios']) or any(x != y for x, y in zip(a['ratios'], b['ratios'])):
+        return False
+    if a['mu'] is None or b['mu'] is None or a['mu'].shape != b['mu'].shape:
+        return False
+    return bool(np.all(np.abs(a['mu'] - b['mu']) <= 1e-9 * scale))
+
+
+def run_fq_containers(ctx, pygam, idxs=None):
+    st = 'fit_quantile.containers'
+    ctx.stream(st, 'fit_quantile(X, y, q, weights=w) with y as (n,1) / (1,n) / list / list of lists / tuple / integer dtype, X as list of lists / '
+                   '1-D array or list (single feature) / integer dtype / Fortran order, weights as list / (n,1) / list of lists / tuple / integer '
+                   'dtype vs the same call on canonical float64 arrays of the same values: expectile of every re-fit and returned expectile '
+                   '(exact), per-sample ratio of every model (exact), predictions (1e-9); the trace of every variant vs the model bisection '
+                   '(doubles, bit for bit) driven by the per-sample ratios; oracle: post-condition and step directions with the per-sample '
+                   'fraction of targets below the prediction')
+    Traced = make_traced(pygam)
+    ncase = 18 if ctx.tier == 'quick' else 240
+    idxs = range(ncase) if idxs is None else idxs
+    evals, ops = [], []
+    for i in idxs:
+        c = fqc_case(ctx, i)
+        q, tol, mi, e0 = c['q'], c['tol'], c['mi'], c['e0']
+        scale = max(1.0, float(np.max(c['y']) - np.min(c['y'])))
+        runs = [('canon', 'canon', 'canon'), (c['yform'], 'canon', 'canon'), ('canon', c['xform'], c['wform'])]
+        canon = None
+        for (yf, xf, wf) in runs:
+            sig = dict(i=c['i'], mix=c['mix'], n=c['n'], wk=c['wk'], q=q, tol=tol, max_iter=mi, e0=e0, prefit=c['prefit'], y=yf, X=xf, w=wf)
+            rp = dict(seed=ctx.seed, stream=st, idx=c['i'], forms=dict(y=yf, X=xf, w=wf), q=q, tol=tol, max_iter=mi, e0=e0, prefit=c['prefit'],
+                      mix=c['mix'], lam=c['lam'], X=c['X'].tolist(), y=c['y'].tolist(), w=c['w'].tolist())
+            o = eval_fqc(pygam, Traced, c, yf, xf, wf)
+            ctx.case(st, sig, nontrivial=(yf, xf, wf) != ('canon', 'canon', 'canon') and o['n_refits'] > 0)
+            ctx.count('container of y', yf)
+            ctx.count('container of X', xf)
+            ctx.count('container of weights', wf)
+            ctx.count('containers: re-fits', o['n_refits'])
+            if canon is None and (yf, xf, wf) == ('canon', 'canon', 'canon'):
+                canon = o
+            bad = oracle_fq(o, q, tol, mi, e0)
+            if bad is not None:
+                o2 = eval_fqc(pygam, Traced, c, yf, xf, wf)
+                bad2 = oracle_fq(o2, q, tol, mi, e0)
+                if bad2 is not None and bad2.get('reason') == 'exception' and not fit_accepts(pygam, c, yf, xf, wf):
+                    ctx.count('containers: form rejected by fit and by fit_quantile (not judged)', '%s/%s/%s' % (yf, xf, wf))
+                    continue
+                if bad2 is not None:
+                    ctx.fail(st, sig, rp, observed=dict(bad2, expectiles=o2['expectiles'], per_sample_ratios=o2['ratios'],
+                                                        final_ratio=o2['final_ratio'], final_expectile=o2['final_e'],
+                                                        canonical=None if canon is None or canon is o else
+                                                        dict(expectiles=canon['expectiles'], per_sample_ratios=canon['ratios'],
+                                                             final_expectile=canon['final_e'])),
+                             expected='|fraction of targets below the prediction - quantile| <= tol or max_iter steps; every step towards the '
+                                      'target; the same search as with canonical float64 arrays of the same values',
+                             oracle='NumPy: (predict(X) > y).mean() per sample on the flat values, on the trace of public fit calls')
+                    continue
+            if o['exc'] is not None:
+                continue
+            if canon is not None and o is not canon and not same_search(o, canon, scale):
+                ctx.disagree(st, sig, dict(expectiles=o['expectiles'], ratios=o['ratios'], final_e=o['final_e']),
+                             dict(expectiles=canon['expectiles'], ratios=canon['ratios'], final_e=canon['final_e']),
+                             'the search depends on the container / shape / dtype of the arguments')
+            if not all(o['kw_ok']):
+                ctx.disagree(st, sig, dict(fits_that_received_the_weights=o['kw_ok']), 'every fit of the search is fit(X, y, weights=w)',
+                             'a fit of the search did not receive the values of the weights passed to fit_quantile')
+            if any(not np.isfinite(x) for x in o['ratios'] + [o['final_ratio']]):
+                ctx.disagree(st, sig, o['ratios'], 'one finite prediction per row', 'predict on the canonical X is not a finite vector of length n')
+                continue
+            evals.append((sig, o, q, tol, mi, e0))
+            ops.append('C18 bisectf %s %s %d %s | %s' % (f2bits(q), f2bits(tol), mi, f2bits(e0), _vec_b(o['ratios'])))
+    outs = ctx.driver.run(ops)
+    for (sig, o, q, tol, mi, e0), lf in zip(evals, outs):
+        within = bool(abs(o['final_ratio'] - q) <= tol)
+        impl = dict(expectiles=o['expectiles'], final_e=o['final_e'], n=o['n_refits'])
+        if '|' not in lf:
+            ctx.disagree(st, sig, impl, lf, 'float model: ' + lf)
+            continue
+        tr, fin = lf.split('|')
+        mtr = [bits2f(t) for t in tr.split()]
+        lo, hi, e, nit, conv = fin.split()
+        ok = (mtr == o['expectiles'] and bits2f(e) == o['final_e'] and int(nit) == o['n_refits'])
+        ok = ok and (within if conv == '1' else o['n_refits'] == mi)
+        if not ok:
+            ctx.disagree(st, sig, impl, dict(expectiles=mtr, final_e=bits2f(e), n=int(nit), conv=conv),
+                         'trace differs from the model bisection driven by the per-sample ratios')
+
+
 def run_malformed(ctx, pygam, lits):
     st = 'malformed'
     ctx.stream(st, 'fit_quantile(quantile, tol, max_iter) argument rejection and ExpectileGAM(expectile) range check vs model (exception class / accepted)')
@@ -1081,6 +1312,7 @@ def _run(ctx):
     run_half_linear(ctx, pygam)
     run_fit_quantile(ctx, pygam, lits)
     run_fq_intercept(ctx, pygam)
+    run_fq_containers(ctx, pygam)
 
 
 def replay(ctx, rp):
@@ -1101,6 +1333,8 @@ def _replay(ctx, rp):
         run_half_linear(ctx, pygam, idxs=[case['idx']])
     elif st == 'fit_quantile.trace' and 'idx' in case:
         run_fit_quantile(ctx, pygam, lits, idxs=[case['idx']])
+    elif st == 'fit_quantile.containers' and 'idx' in case:
+        run_fq_containers(ctx, pygam, idxs=[case['idx']])
     elif st == 'fit_quantile.intercept' and 'idx' in case:
         run_fq_intercept(ctx, pygam, idxs=[case['idx']])
     elif st == 'intercept.fixed-point' and 'idx' in case:
